@@ -10,6 +10,8 @@ Transfer functions:
   any other call that receives the scanner                cur = ALL, aliases dropped
   switchInt(alias)      arm v: cur &= {v};  otherwise: cur -= arms;  empty cur prunes the path
   b = const bool / switchInt(b) with b known              only the matching edge is followed
+  `last` : the set of values the most recently *consumed* byte may have (next(), read(), a successful skip(c)/expect(c));
+           back() makes it the current byte again.  Results of Scanner::read are aliases of `last`.
 States are kept as a set per block (disjunctive); the domain is finite so the worklist terminates.
 `possible_at(bb)` is the union of cur over all states reaching the call terminator of bb.
 No input is ever run: the result is a property of the code's shape for every input."""
@@ -18,13 +20,30 @@ from .facts import callee_of
 ALL = frozenset(range(256))
 PEEK = ("scanner::Scanner::peek",)
 SKIP = ("scanner::Scanner::skip",)
+NEXT = ("scanner::Scanner::next",)
+READ = ("scanner::Scanner::read",)
+BACK = ("scanner::Scanner::back",)
+EXPECT = ("scanner::Scanner::expect",)
 
 
 def _mentions_scanner(t):
     for a in t["args"]:
-        if a["k"] in ("copy", "move") and "Scanner" in (a["place"].get("ty") or {}).get("s", ""):
+        ty = (a["place"].get("ty") or {}).get("s", "") if a["k"] in ("copy", "move") else ""
+        if "Scanner" in ty or "parse::Parser" in ty:
             return True
     return False
+
+
+def _moved(bd, both=False):
+    """the scanner advanced: comparison flags about the (old) current byte now speak about the last consumed one, or nothing"""
+    r = {}
+    for k, v in bd.items():
+        if isinstance(v, tuple):
+            if v[1] == "cur" and not both:
+                r[k] = ("cmp", "last", v[2], v[3])
+            continue
+        r[k] = v
+    return r
 
 
 class ByteClass:
@@ -39,14 +58,24 @@ class ByteClass:
         if sts is None:
             return None
         r = frozenset()
-        for cur, _, _ in sts:
-            r |= cur
+        for st in sts:
+            r |= st[0]
         return r
 
-    # state = (cur frozenset, aliases frozenset, bools tuple(sorted))
+    def last_at(self, bb):
+        """possible values of the most recently consumed byte on reaching the terminator of bb (None: block not reached)"""
+        sts = self.at_term.get(bb)
+        if sts is None:
+            return None
+        r = frozenset()
+        for st in sts:
+            r |= st[3]
+        return r
+
+    # state = (cur frozenset, aliases-of-cur frozenset, bools tuple(sorted), last frozenset, aliases-of-last frozenset)
     def _run(self, entry_cur, cap):
         b = self.b
-        start = (frozenset(entry_cur), frozenset(), ())
+        start = (frozenset(entry_cur), frozenset(), (), ALL, frozenset())
         seen = {0: {start}}
         work = [(0, start)]
         n = 0
@@ -59,13 +88,15 @@ class ByteClass:
             blk = b.blocks[bi]
             if blk["cleanup"]:
                 continue
-            cur, al, bools = st
+            cur, al, bools, last, la = st
             bd = dict(bools)
             al = set(al)
+            la = set(la)
             for s in blk["stmts"]:
                 if s["k"] == "dead":
                     bd.pop(s["l"], None)
                     al.discard(s["l"])
+                    la.discard(s["l"])
                 elif s["k"] == "assign":
                     pl = s["place"]
                     if pl["p"]:
@@ -74,6 +105,7 @@ class ByteClass:
                     rv = s["rv"]
                     bd.pop(l, None)
                     al.discard(l)
+                    la.discard(l)
                     if rv["k"] == "use":
                         o = rv["op"]
                         if o["k"] == "const" and o["ty"]["s"] == "bool" and o.get("int") is not None:
@@ -84,66 +116,110 @@ class ByteClass:
                                 bd[l] = bd[src]
                             if src in al:
                                 al.add(l)
+                            if src in la:
+                                la.add(l)
                     elif rv["k"] == "un" and rv.get("op") == "Not":
                         o = rv.get("a")
                         if o and o["k"] in ("copy", "move") and not o["place"]["p"] and o["place"]["l"] in bd:
-                            bd[l] = not bd[o["place"]["l"]]
-            self.at_term.setdefault(bi, set()).add((cur, frozenset(al), tuple(sorted(bd.items()))))
+                            x = bd[o["place"]["l"]]
+                            bd[l] = (not x) if isinstance(x, bool) else (x[0], x[1], x[2], not x[3])
+                    elif rv["k"] == "bin" and rv.get("op") in ("Eq", "Ne"):
+                        # `peek() == 'c'` / `read() != 'c'`: remember what the flag means, the branch on it refines cur / last
+                        for x, y in ((rv["a"], rv["b"]), (rv["b"], rv["a"])):
+                            if x["k"] in ("copy", "move") and not x["place"]["p"] and y["k"] == "const" and y.get("int") is not None:
+                                src = x["place"]["l"]
+                                which = "cur" if src in al else "last" if src in la else None
+                                if which:
+                                    bd[l] = ("cmp", which, y["int"], rv["op"] == "Ne")
+            self.at_term.setdefault(bi, set()).add((cur, frozenset(al), tuple(sorted(bd.items())), last, frozenset(la)))
             t = blk["term"]
-            outs = []
+            outs = []   # (target, cur, alias-cur, bools, last, alias-last)
             k = t["k"] if t else None
             if k in ("goto", "drop", "assert"):
-                outs.append((t["target"], cur, al, bd))
+                outs.append((t["target"], cur, al, bd, last, la))
             elif k == "call":
                 if t["target"] >= 0:
                     c = callee_of(t)
                     d = t["dest"]["l"] if not t["dest"]["p"] else None
                     bd2 = dict(bd)
                     al2 = set(al)
+                    la2 = set(la)
                     if d is not None:
                         bd2.pop(d, None)
                         al2.discard(d)
+                        la2.discard(d)
+                    cst = t["args"][1].get("int") if len(t["args"]) > 1 and t["args"][1]["k"] == "const" else None
                     if c in PEEK:
                         if d is not None:
                             al2.add(d)
-                        outs.append((t["target"], cur, al2, bd2))
-                    elif c in SKIP and t["args"][1]["k"] == "const" and t["args"][1].get("int") is not None and d is not None:
-                        ch = t["args"][1]["int"]
+                        outs.append((t["target"], cur, al2, bd2, last, la2))
+                    elif c in NEXT:
+                        outs.append((t["target"], ALL, set(), _moved(bd2), cur, set(al2)))
+                    elif c in READ:
+                        nl = set(al2)
+                        if d is not None:
+                            nl.add(d)
+                        outs.append((t["target"], ALL, set(), _moved(bd2), cur, nl))
+                    elif c in BACK:
+                        outs.append((t["target"], last, set(la2), _moved(bd2, True), ALL, set()))
+                    elif c in EXPECT and cst is not None:
+                        # on success c was consumed; on failure the `?` that follows returns
+                        outs.append((t["target"], ALL, set(), _moved(bd2, True), frozenset([cst]), set()))
+                    elif c in SKIP and cst is not None and d is not None:
+                        ch = cst
                         if ch in cur:
-                            bt = dict(bd2)
+                            bt = _moved(bd2, True)
                             bt[d] = True
-                            outs.append((t["target"], ALL, set(), bt))
+                            outs.append((t["target"], ALL, set(), bt, frozenset([ch]), set()))
                         rest = cur - {ch}
                         if rest:
                             bf = dict(bd2)
                             bf[d] = False
-                            outs.append((t["target"], rest, al2, bf))
+                            outs.append((t["target"], rest, al2, bf, last, la2))
                     elif _mentions_scanner(t):
-                        outs.append((t["target"], ALL, set(), bd2))
+                        outs.append((t["target"], ALL, set(), _moved(bd2, True), ALL, set()))
                     else:
-                        outs.append((t["target"], cur, al2, bd2))
+                        outs.append((t["target"], cur, al2, bd2, last, la2))
             elif k == "switch":
                 o = t["discr"]
                 l = o["place"]["l"] if o["k"] in ("copy", "move") and not o["place"]["p"] else None
-                if l is not None and l in bd:
+                if l is not None and l in bd and isinstance(bd[l], tuple):
+                    _, which, ch, neg = bd[l]
+                    subj = cur if which == "cur" else last
+                    for truth in (True, False):
+                        tgt = dict((a, x) for a, x in t["arms"]).get(int(truth), t["otherwise"])
+                        eq = truth != neg
+                        part = (subj & {ch}) if eq else (subj - {ch})
+                        if part:
+                            outs.append((tgt, part if which == "cur" else cur, al, bd, last if which == "cur" else part, la))
+                elif l is not None and l in bd:
                     v = int(bd[l])
                     tgt = dict((a, x) for a, x in t["arms"]).get(v, t["otherwise"])
-                    outs.append((tgt, cur, al, bd))
+                    outs.append((tgt, cur, al, bd, last, la))
                 elif l is not None and l in al:
                     armv = set()
                     for v, x in t["arms"]:
                         armv.add(v)
                         if v in cur:
-                            outs.append((x, frozenset([v]), al, bd))
+                            outs.append((x, frozenset([v]), al, bd, last, la))
                     rest = cur - armv
                     if rest:
-                        outs.append((t["otherwise"], rest, al, bd))
+                        outs.append((t["otherwise"], rest, al, bd, last, la))
+                elif l is not None and l in la:
+                    armv = set()
+                    for v, x in t["arms"]:
+                        armv.add(v)
+                        if v in last:
+                            outs.append((x, cur, al, bd, frozenset([v]), la))
+                    rest = last - armv
+                    if rest:
+                        outs.append((t["otherwise"], cur, al, bd, rest, la))
                 else:
                     for v, x in t["arms"]:
-                        outs.append((x, cur, al, bd))
-                    outs.append((t["otherwise"], cur, al, bd))
-            for tgt, c2, a2, b2 in outs:
-                ns = (frozenset(c2), frozenset(a2), tuple(sorted(b2.items())))
+                        outs.append((x, cur, al, bd, last, la))
+                    outs.append((t["otherwise"], cur, al, bd, last, la))
+            for tgt, c2, a2, b2, l2, la_2 in outs:
+                ns = (frozenset(c2), frozenset(a2), tuple(sorted(b2.items())), frozenset(l2), frozenset(la_2))
                 ss = seen.setdefault(tgt, set())
                 if ns not in ss:
                     if len(ss) >= cap:
